@@ -93,11 +93,12 @@ def command(st, prop, tier, seed, shard, nshards, out):
     build = st["build"]
     scratch = os.path.join(WORK, "scratch")
     if build == "miri":
-        flags = "-Zmiri-disable-isolation -Zmiri-disable-stacked-borrows -Zmiri-ignore-leaks " + st.get("miriflags", "")
+        flags = "-Zmiri-disable-isolation -Zmiri-disable-stacked-borrows -Zmiri-ignore-leaks -Zmiri-seed=%d " % shard + st.get("miriflags", "")
         env = _env({"MIRIFLAGS": flags})
         cmd = ["cargo", "+nightly", "miri", "run", "--offline", "--target-dir", os.path.join(WORK, "target-miri"), "--"] + args
         return cmd, env | {"VH_CWD": HARNESS}
-    env = _env({"VH_SCRATCH": scratch})
+    env = _env({"VH_SCRATCH": scratch, "VH_CLI": binary("cli"), "VH_PYPKG": os.path.join(WORK, "pypkg"),
+                "VH_PYDRIVER": os.path.join(VERIF, "py", "drive.py")})
     if build == "asan":
         env["ASAN_OPTIONS"] = "detect_leaks=0:halt_on_error=1:abort_on_error=0:exitcode=98"
     if build == "tsan":
@@ -123,7 +124,7 @@ def is_sanitizer_report(st, rc, tail):
 
 def setup():
     ok_all = True
-    for b in ["mon", "rel"]:
+    for b in ["mon", "rel", "tsan", "cli", "py"]:
         ok, why = ensure(b)
         print("setup: build %s: %s" % (b, "ok" if ok else "FAILED\n" + why))
         ok_all = ok_all and ok
